@@ -474,3 +474,125 @@ Section Mono.
   Theorem accepts_document_mono es : accepts_document cfg es = true -> accepts_document cfg' es = true.
   Proof. rewrite !accepts_document_steps. intros [c [H T]]. exists c. split; [apply steps_le|]; assumption. Qed.
 End Mono.
+
+(* ------------------------------------------------------------------------- *)
+(* Additive effects                                                           *)
+(* ------------------------------------------------------------------------- *)
+(* A measure [mu] of the context on which every statement has a fixed effect [ep p] and every
+   method a fixed effect [em m]: if the effects of the statements of every (non-rejecting) cell
+   add up to the effect of its method, every method call has the effect of its method. *)
+Section Effect.
+  Variable cfg : rcfg.
+  Variable mu : rctx -> Z.
+  Variable em : meth -> Z.
+  Variable ep : prim -> Z.
+  Hypothesis prim_eff : forall call,
+    (forall r m a c c', call r m a c = Some c' -> mu c' = (mu c + em m)%Z) ->
+    forall self m a p c c', exec_prim cfg call self m a p c = Some c' -> mu c' = (mu c + ep p)%Z.
+
+  Definition cell_eff (cell : list prim) : Z := fold_right (fun p z => (ep p + z)%Z) 0%Z cell.
+
+  Lemma exec_prims_eff call :
+    (forall r m a c c', call r m a c = Some c' -> mu c' = (mu c + em m)%Z) ->
+    forall self m a ps c c', exec_prims cfg call self m a ps c = Some c' -> mu c' = (mu c + cell_eff ps)%Z.
+  Proof.
+    intros Hcall self m a ps; induction ps as [|p ps IH]; intros c c' H; cbn [exec_prims cell_eff fold_right] in H |- *.
+    - inv_some. lia.
+    - destruct (exec_prim cfg call self m a p c) as [c1|] eqn:E; [|discriminate].
+      apply (prim_eff call Hcall) in E. apply IH in H. fold (cell_eff ps). lia.
+  Qed.
+
+  Hypothesis table_ok : table_forall (fun _ m cell => has_reject cell || (cell_eff cell =? em m)%Z) = true.
+
+  Lemma call_rule_eff : forall f r m a c c', call_rule f cfg r m a c = Some c' -> mu c' = (mu c + em m)%Z.
+  Proof.
+    apply (call_rule_ind_gen cfg (fun _ m _ c c' => mu c' = (mu c + em m)%Z)).
+    intros call Hcall r m a c c' H.
+    pose proof (table_forall_spec _ table_ok r m) as T. cbn beta in T. apply orb_true_iff in T as [T|T].
+    - rewrite exec_prims_reject in H by exact T. discriminate.
+    - apply (exec_prims_eff call Hcall) in H. lia.
+  Qed.
+End Effect.
+
+(* ---- container depth ---- *)
+Definition depth_em (m : meth) : Z :=
+  match m with
+  | MList | MMap | MRecordType | MRecord | MEdge | MNode => 1
+  | MEnd => -1
+  | _ => 0
+  end.
+Definition depth_ep (p : prim) : Z :=
+  match p with
+  | PBeginList | PBeginMap | PBeginRecordType | PBeginRecord | PBeginEdge | PBeginNode => 1
+  | PEndContainer notify => -1 + (if notify then depth_em MChildContainerEnded else 0)
+  | PForwardCurrent m' | PForwardParent m' => depth_em m'
+  | _ => 0
+  end.
+
+Lemma call_rule_depth cfg f r m a c c' :
+  call_rule f cfg r m a c = Some c' -> Z.of_N (depth c') = (Z.of_N (depth c) + depth_em m)%Z.
+Proof.
+  apply (call_rule_eff cfg (fun c => Z.of_N (depth c)) depth_em depth_ep).
+  - intros call Hcall self m0 a0 p c0 c0' E.
+    prim_cases p E; cbn [depth_ep depth_em]; rsimpl;
+      repeat match goal with H : call _ _ _ _ = Some _ |- _ => apply Hcall in H; cbn [depth_em] in H; rsimpl end; try lia.
+  - vm_compute. reflexivity.
+Qed.
+
+(* [objects] is touched by NotifyNewObject only, which no statement performs. *)
+Lemma call_rule_objects cfg f r m a c c' : call_rule f cfg r m a c = Some c' -> objects c' = objects c.
+Proof.
+  intro H.
+  refine (call_rule_R cfg (fun c c' => objects c' = objects c) (fun _ => True) (fun _ => true) _ _ _ _ f r m a c c' I H);
+    [ reflexivity | intros; congruence | | vm_compute; reflexivity ].
+  intros call Hcall self m0 a0 p c0 c0' _ _ E.
+  prim_cases p E; rsimpl; try reflexivity;
+    repeat match goal with H : call _ _ _ _ = Some _ |- _ => apply Hcall in H; [rsimpl | exact I] end; try congruence.
+Qed.
+
+Lemma nno_fields cfg real c c' :
+  notify_new_object cfg real c = Some c' ->
+  objects c' = objects c + 1 /\ objects c' <= max_object_count cfg /\ depth c' = depth c /\ stack c' = stack c /\ e_rule (cur c') = e_rule (cur c) /\ e_dtype (cur c') = e_dtype (cur c) /\ marked c' = marked c /\ fwd c' = fwd c /\ refcount c' = refcount c /\ marker_id c' = marker_id c /\ rectypes c' = rectypes c /\ arr_total c' = arr_total c /\ arr_type c' = arr_type c.
+Proof. unfold notify_new_object. intro H. inv_some. rsimpl. repeat split; try reflexivity. lia. Qed.
+
+(* the two counters after one event *)
+Lemma plan_step_counters cfg pl c c' :
+  plan_step cfg pl c = Some c' ->
+  objects c' = objects c + (if p_nno pl then 1 else 0) /\ Z.of_N (depth c') = (Z.of_N (depth c) + depth_em (p_meth pl))%Z.
+Proof.
+  unfold plan_step, call_current. intro H. destruct (p_nno pl) as [real|].
+  - destruct (notify_new_object cfg real c) as [c1|] eqn:N; [|discriminate].
+    apply nno_fields in N. pose proof (call_rule_objects _ _ _ _ _ _ _ H). pose proof (call_rule_depth _ _ _ _ _ _ _ H).
+    split; [lia|]. destruct N as [_ [_ [N _]]]. rewrite <- N. assumption.
+  - pose proof (call_rule_objects _ _ _ _ _ _ _ H). pose proof (call_rule_depth _ _ _ _ _ _ _ H). split; [lia | assumption].
+Qed.
+
+Lemma ev_plan_counts cfg e pl :
+  ev_plan cfg e = Some pl ->
+  (if p_nno pl then true else false) = counts_object e /\ depth_em (p_meth pl) = depth_delta e.
+Proof.
+  destruct e as [| |v| |m t| |b| | |n|n|z|[z|]|bits|[bf|]|[| | |]|[[| | |]|]|s|b|s| | |id|id| | | |id|id|t cnt d|t d|mt d|ct d|ct d|t|mt|t ct|n m|d];
+    cbn [ev_plan mkplan counts_object depth_delta]; intro H;
+    repeat match goal with H : (if ?b then _ else _) = Some _ |- _ => destruct b; try discriminate H end;
+    unfold mkplan in H; inv_some; cbn; split; reflexivity.
+Qed.
+
+Lemma rstep_counters cfg c e c' o :
+  rstep cfg c e = Some (c', o) ->
+  objects c' = objects c + (if counts_object e then 1 else 0) /\ Z.of_N (depth c') = (Z.of_N (depth c) + depth_delta e)%Z.
+Proof.
+  rewrite rstep_plan. destruct (ev_plan cfg e) as [pl|] eqn:P; [|discriminate].
+  destruct (plan_step cfg pl c) as [c2|] eqn:S; [|discriminate]. intro H; inv_some.
+  apply ev_plan_counts in P as [P1 P2]. apply plan_step_counters in S as [S1 S2]. rewrite <- P1, <- P2.
+  split; [destruct (p_nno pl); assumption | assumption].
+Qed.
+
+Lemma steps_counters cfg es : forall c c',
+  steps cfg c es = Some c' ->
+  objects c' = objects c + object_usage es /\ Z.of_N (depth c') = (Z.of_N (depth c) + depth_after es)%Z.
+Proof.
+  induction es as [|e es IH]; intros c c' H; cbn [steps] in H.
+  - inv_some. cbn. split; lia.
+  - destruct (rstep cfg c e) as [[c1 o]|] eqn:R; [|discriminate]. apply rstep_counters in R as [R1 R2].
+    apply IH in H as [H1 H2]. unfold object_usage, depth_after in *. cbn [count_if fold_right]. split; lia.
+Qed.
